@@ -93,3 +93,16 @@ def existential(live, summ):
 def _subterms_comp(t):
     from .sym import walk
     return [x for x in walk(t) if x[0] == "comp"]
+
+
+def guarded_lookup(live, value):
+    """(table, key) when `value` is an entry of a table that the path condition shows to be present:
+    `if k in t: ... t[k]`, or `v = t.get(k); if v is not None: ... v` (stored values are objects, never None)."""
+    conj = conjuncts(live)
+    if value[0] == "sub" and ("cmp", "in", value[2], value[1]) in conj:
+        return value[1], value[2]
+    if value[0] == "call" and value[1][0] == "attr" and value[1][2] == "get" and not value[3] \
+            and (len(value[2]) == 1 or (len(value[2]) == 2 and value[2][1] == NONE)):
+        if ("cmp", "isnot", value, NONE) in conj or value in conj:
+            return value[1][1], value[2][0]
+    return None
